@@ -20,6 +20,7 @@ CHECKS = {
     "C09": "mc.checks.c09",
     "C10": "mc.checks.c10",
     "C11": "mc.checks.c11",
+    "C12": "mc.checks.c12",
     "C13": "mc.checks.c13",
     "C14": "mc.checks.c14",
     "C15": "mc.checks.c15",
